@@ -64,6 +64,21 @@ type Link struct {
 	// scripted faults: after the n-th Write on direction d (1-based) do kind
 	Script []ScriptedFault
 	Tag    string
+	// KeepAlive is the dialer's KeepAlive setting (net.Dialer semantics)
+	KeepAlive time.Duration
+}
+
+// KeepAlivePeriod models net.Dialer.KeepAlive: a negative value disables
+// keep-alive probes (0 is returned), zero selects Go's default of 15 s, a
+// positive value is the idle period before the first probe.
+func (l *Link) KeepAlivePeriod() time.Duration {
+	switch {
+	case l.KeepAlive < 0:
+		return 0
+	case l.KeepAlive == 0:
+		return 15 * time.Second
+	}
+	return l.KeepAlive
 }
 
 type ScriptedFault struct {
@@ -694,6 +709,7 @@ func (d *Dialer) Dial(network, address string) (net.Conn, error) {
 	if d.TagFunc != nil {
 		lk.Tag = d.TagFunc()
 	}
+	lk.KeepAlive = d.KeepAlive
 	n.W.Ping()
 	l.backlog = append(l.backlog, lk.Ends[1])
 	l.aq.Wake()
